@@ -45,7 +45,9 @@ def changing_cases(draw, tier):
     p = draw(st.integers(1, 4))
     kmax = min(5, n - 1)
     k = draw(st.integers(0, kmax)) if kmax > 0 else 0
-    cpts = sorted(draw(st.lists(st.integers(1, max(1, n - 1)), min_size=k, max_size=k, unique=True))) if k else []
+    # non-decreasing positions in [0, n-1]: a repeated changepoint (or changepoint 0) requests an empty segment
+    unique = draw(st.sampled_from([True, False]))
+    cpts = sorted(draw(st.lists(st.integers(1 if unique else 0, max(1, n - 1)), min_size=k, max_size=k, unique=unique))) if k else []
     m_arg, v_arg, means, variances = draw(mean_var_args(p, len(cpts) + 1))
     cp_arg = cpts
     if len(cpts) == 1 and draw(st.booleans()):
@@ -120,7 +122,10 @@ def check_changing(case):
     if not np.allclose(a.to_numpy(), want, rtol=1e-12, atol=1e-12):
         raise Violation("output != mean + sqrt(variance) x standard-normal output on the requested segments",
                         changepoints=cpts, n=n, p=p)
-    return {"nontrivial": p > 1 or len(cpts) >= 1, "classes": [f"segments={min(len(cpts) + 1, 4)}", "n=1" if n == 1 else "n>1"]}
+    classes = [f"segments={min(len(cpts) + 1, 4)}", "n=1" if n == 1 else "n>1"]
+    if len(set(cpts)) < len(cpts) or (cpts and cpts[0] == 0):
+        classes.append("empty_segment_requested")
+    return {"nontrivial": p > 1 or len(cpts) >= 1, "classes": classes}
 
 
 def check_anomalous(case):
@@ -281,7 +286,7 @@ def check_invalid(case):
 
 FACETS = [
     Facet(name="changing_data", check=check_changing, strategy=changing_cases,
-          rule=("generate_changing_data: n 1..60, p 1..4, 0..5 strictly increasing changepoints (int or list), scalar / shared "
+          rule=("generate_changing_data: n 1..60, p 1..4, 0..5 non-decreasing changepoints incl. repeats and 0 (int or list), scalar / shared "
                 "vector / per-segment means and variances, seeds; non-trivial = p>1 or >= 2 segments"),
           n_quick=500, n_thorough=8000, shards_quick=4, shards_thorough=8),
     Facet(name="anomalous_data", check=check_anomalous, strategy=anomalous_cases,
